@@ -510,6 +510,186 @@ theorem curvePointAt_unit (p : ℕ) (U : ℕ → K) (P : List (List K)) (k : ℕ
     simp [ptsGet, List.getD_eq_getElem?_getD, hi']
   · simp [Blossom.basisFuns_length]
 
+theorem linComb_fold_len (d : ℕ) : ∀ (l : List (K × List K)) (acc : List K), acc.length = d →
+    (∀ x ∈ l, x.2.length = d) → (l.foldl (fun acc x => vadd acc (vsmul x.1 x.2)) acc).length = d
+  | [], acc, h, _ => h
+  | x :: l, acc, h, hl => by
+      simp only [List.foldl_cons]
+      apply linComb_fold_len d l
+      · rw [vadd_len]; simp [vsmul, h, hl x List.mem_cons_self]
+      · intro y hy; exact hl y (List.mem_cons_of_mem _ hy)
+
+theorem linComb_len (d : ℕ) (N : List K) (pts : List (List K)) (hpts : ∀ pt ∈ pts, pt.length = d) :
+    (linComb d N pts).length = d := by
+  unfold linComb
+  apply linComb_fold_len
+  · simp [vzero]
+  · intro x hx
+    exact hpts _ (List.of_mem_zip hx).2
+
+theorem ptsGet_append1 (P : List (List K)) (i : ℕ) (hi : i < P.length) :
+    ptsGet (P.map (· ++ [1])) i = ptsGet P i ++ [1] := by
+  simp [ptsGet, List.getD_eq_getElem?_getD, hi]
+
+theorem ptsGet_len (P : List (List K)) (d i : ℕ) (hd : ∀ pt ∈ P, pt.length = d) (hi : i < P.length) :
+    (ptsGet P i).length = d := by
+  apply hd
+  simp [ptsGet, List.getD_eq_getElem?_getD, hi]
+
+theorem dimOf_eq_of (P : List (List K)) (d : ℕ) (hd : ∀ pt ∈ P, pt.length = d) (hP : 0 < P.length) :
+    dimOf P = d ∧ dimOf (P.map (· ++ [1])) = d + 1 := by
+  unfold dimOf
+  cases P with
+  | nil => simp at hP
+  | cons a P => simpa using hd a List.mem_cons_self
+
+theorem grid_index_lt (a b sv su : ℕ) (ha : a < sv) (hb : b < su) : a + sv * b < su * sv := by
+  have h1 : sv * (b + 1) ≤ sv * su := Nat.mul_le_mul_left sv hb
+  rw [Nat.mul_comm su sv]
+  have : sv * (b + 1) = sv * b + sv := by ring
+  omega
+
+/-- A3.5 on the unit-weight net, projected, is A3.5 on the plain net -/
+theorem surfacePointAt_unit (pu pv : ℕ) (Uu Uv : ℕ → K) (su sv : ℕ) (P : List (List K)) (ku kv : ℕ) (u v : K)
+    (d : ℕ) (hd : ∀ pt ∈ P, pt.length = d) (hlen : P.length = su * sv)
+    (hku : ku < su) (hkv : kv < sv) (hpu : pu ≤ ku) (hpv : pv ≤ kv) (hsu : SpanOk Uu ku u) (hsv : SpanOk Uv kv v) :
+    project (surfacePointAt pu pv Uu Uv sv (combineUnit P) ku kv u v) = surfacePointAt pu pv Uu Uv sv P ku kv u v := by
+  have hP : 0 < P.length := by rw [hlen]; exact Nat.mul_pos (by omega) (by omega)
+  obtain ⟨hdim, hdim1⟩ := dimOf_eq_of P d hd hP
+  unfold surfacePointAt
+  rw [combineUnit_eq]
+  simp only [hdim, hdim1]
+  have hidx : ∀ k ∈ List.range (pu+1), ∀ l ∈ List.range (pv+1), kv - pv + l + sv * (ku - pu + k) < P.length := by
+    intro k hk l hl
+    rw [List.mem_range] at hk hl
+    rw [hlen]
+    exact grid_index_lt _ _ sv su (by omega) (by omega)
+  have hinner : (List.range (pu+1)).map (fun k => linComb (d+1) (basisFuns pv Uv kv v)
+        ((List.range (pv+1)).map (fun l => ptsGet (P.map (· ++ [1])) (kv - pv + l + sv * (ku - pu + k))))) =
+      ((List.range (pu+1)).map (fun k => linComb d (basisFuns pv Uv kv v)
+        ((List.range (pv+1)).map (fun l => ptsGet P (kv - pv + l + sv * (ku - pu + k)))))).map (· ++ [1]) := by
+    rw [List.map_map]
+    apply List.map_congr_left
+    intro k hk
+    have : (List.range (pv+1)).map (fun l => ptsGet (P.map (· ++ [1])) (kv - pv + l + sv * (ku - pu + k))) =
+        ((List.range (pv+1)).map (fun l => ptsGet P (kv - pv + l + sv * (ku - pu + k)))).map (· ++ [1]) := by
+      rw [List.map_map]
+      apply List.map_congr_left
+      intro l hl
+      simp only [Function.comp, ptsGet_append1 P _ (hidx k hk l hl)]
+    simp only [Function.comp]
+    rw [this, linComb_append1 d, Geomdl.basisFuns_sum pv hsv]
+    · intro pt hpt
+      simp only [List.mem_map] at hpt
+      obtain ⟨l, hl, rfl⟩ := hpt
+      exact ptsGet_len P d _ hd (hidx k hk l hl)
+    · simp [Blossom.basisFuns_length]
+  rw [hinner, linComb_append1 d, Geomdl.basisFuns_sum pu hsu, project_append_one]
+  · intro pt hpt
+    simp only [List.mem_map] at hpt
+    obtain ⟨k, hk, rfl⟩ := hpt
+    apply linComb_len
+    intro q hq
+    simp only [List.mem_map] at hq
+    obtain ⟨l, hl, rfl⟩ := hq
+    exact ptsGet_len P d _ hd (hidx k hk l hl)
+  · simp [Blossom.basisFuns_length]
+
+/-- volume evaluation on the unit-weight net, projected, is volume evaluation on the plain net -/
+theorem volumePointAt_unit (pu pv pw : ℕ) (Uu Uv Uw : ℕ → K) (su sv sw : ℕ) (P : List (List K))
+    (ku kv kw : ℕ) (u v w : K) (d : ℕ) (hd : ∀ pt ∈ P, pt.length = d) (hlen : P.length = su * sv * sw)
+    (hku : ku < su) (hkv : kv < sv) (hkw : kw < sw) (hpu : pu ≤ ku) (hpv : pv ≤ kv) (hpw : pw ≤ kw)
+    (hsu : SpanOk Uu ku u) (hsv : SpanOk Uv kv v) (hsw : SpanOk Uw kw w) :
+    project (volumePointAt pu pv pw Uu Uv Uw su sv (combineUnit P) ku kv kw u v w) =
+      volumePointAt pu pv pw Uu Uv Uw su sv P ku kv kw u v w := by
+  have hP : 0 < P.length := by
+    rw [hlen]; exact Nat.mul_pos (Nat.mul_pos (by omega) (by omega)) (by omega)
+  obtain ⟨hdim, hdim1⟩ := dimOf_eq_of P d hd hP
+  unfold volumePointAt
+  rw [combineUnit_eq]
+  simp only [hdim, hdim1]
+  have hidx : ∀ a ∈ List.range (pu+1), ∀ b ∈ List.range (pv+1), ∀ c ∈ List.range (pw+1),
+      kv - pv + b + sv * (ku - pu + a + su * (kw - pw + c)) < P.length := by
+    intro a ha b hb c hc
+    rw [List.mem_range] at ha hb hc
+    have h1 := grid_index_lt (ku - pu + a) (kw - pw + c) su sw (by omega) (by omega)
+    have h2 := grid_index_lt (kv - pv + b) _ sv (sw * su) (by omega) h1
+    have : sw * su * sv = su * sv * sw := by ring
+    rw [hlen, ← this]; exact h2
+  have hl3 : ∀ a ∈ List.range (pu+1), ∀ b ∈ List.range (pv+1),
+      linComb (d+1) (basisFuns pw Uw kw w) ((List.range (pw+1)).map (fun c =>
+        ptsGet (P.map (· ++ [1])) (kv - pv + b + sv * (ku - pu + a + su * (kw - pw + c))))) =
+      linComb d (basisFuns pw Uw kw w) ((List.range (pw+1)).map (fun c =>
+        ptsGet P (kv - pv + b + sv * (ku - pu + a + su * (kw - pw + c))))) ++ [1] := by
+    intro a ha b hb
+    have : (List.range (pw+1)).map (fun c => ptsGet (P.map (· ++ [1])) (kv - pv + b + sv * (ku - pu + a + su * (kw - pw + c)))) =
+        ((List.range (pw+1)).map (fun c => ptsGet P (kv - pv + b + sv * (ku - pu + a + su * (kw - pw + c))))).map (· ++ [1]) := by
+      rw [List.map_map]
+      apply List.map_congr_left
+      intro c hc
+      simp only [Function.comp, ptsGet_append1 P _ (hidx a ha b hb c hc)]
+    rw [this, linComb_append1 d, Geomdl.basisFuns_sum pw hsw]
+    · intro pt hpt
+      simp only [List.mem_map] at hpt
+      obtain ⟨c, hc, rfl⟩ := hpt
+      exact ptsGet_len P d _ hd (hidx a ha b hb c hc)
+    · simp [Blossom.basisFuns_length]
+  have hlen3 : ∀ a ∈ List.range (pu+1), ∀ b ∈ List.range (pv+1),
+      (linComb d (basisFuns pw Uw kw w) ((List.range (pw+1)).map (fun c =>
+        ptsGet P (kv - pv + b + sv * (ku - pu + a + su * (kw - pw + c)))))).length = d := by
+    intro a ha b hb
+    apply linComb_len
+    intro q hq
+    simp only [List.mem_map] at hq
+    obtain ⟨c, hc, rfl⟩ := hq
+    exact ptsGet_len P d _ hd (hidx a ha b hb c hc)
+  have hl2 : ∀ a ∈ List.range (pu+1),
+      linComb (d+1) (basisFuns pv Uv kv v) ((List.range (pv+1)).map (fun b =>
+        linComb (d+1) (basisFuns pw Uw kw w) ((List.range (pw+1)).map (fun c =>
+          ptsGet (P.map (· ++ [1])) (kv - pv + b + sv * (ku - pu + a + su * (kw - pw + c))))))) =
+      linComb d (basisFuns pv Uv kv v) ((List.range (pv+1)).map (fun b =>
+        linComb d (basisFuns pw Uw kw w) ((List.range (pw+1)).map (fun c =>
+          ptsGet P (kv - pv + b + sv * (ku - pu + a + su * (kw - pw + c))))))) ++ [1] := by
+    intro a ha
+    have : (List.range (pv+1)).map (fun b =>
+        linComb (d+1) (basisFuns pw Uw kw w) ((List.range (pw+1)).map (fun c =>
+          ptsGet (P.map (· ++ [1])) (kv - pv + b + sv * (ku - pu + a + su * (kw - pw + c)))))) =
+        ((List.range (pv+1)).map (fun b =>
+        linComb d (basisFuns pw Uw kw w) ((List.range (pw+1)).map (fun c =>
+          ptsGet P (kv - pv + b + sv * (ku - pu + a + su * (kw - pw + c))))))).map (· ++ [1]) := by
+      rw [List.map_map]
+      apply List.map_congr_left
+      intro b hb
+      simp only [Function.comp, hl3 a ha b hb]
+    rw [this, linComb_append1 d, Geomdl.basisFuns_sum pv hsv]
+    · intro pt hpt
+      simp only [List.mem_map] at hpt
+      obtain ⟨b, hb, rfl⟩ := hpt
+      exact hlen3 a ha b hb
+    · simp [Blossom.basisFuns_length]
+  have houter : (List.range (pu+1)).map (fun a =>
+        linComb (d+1) (basisFuns pv Uv kv v) ((List.range (pv+1)).map (fun b =>
+          linComb (d+1) (basisFuns pw Uw kw w) ((List.range (pw+1)).map (fun c =>
+            ptsGet (P.map (· ++ [1])) (kv - pv + b + sv * (ku - pu + a + su * (kw - pw + c)))))))) =
+      ((List.range (pu+1)).map (fun a =>
+        linComb d (basisFuns pv Uv kv v) ((List.range (pv+1)).map (fun b =>
+          linComb d (basisFuns pw Uw kw w) ((List.range (pw+1)).map (fun c =>
+            ptsGet P (kv - pv + b + sv * (ku - pu + a + su * (kw - pw + c))))))))).map (· ++ [1]) := by
+    rw [List.map_map]
+    apply List.map_congr_left
+    intro a ha
+    simp only [Function.comp, hl2 a ha]
+  rw [houter, linComb_append1 d, Geomdl.basisFuns_sum pu hsu, project_append_one]
+  · intro pt hpt
+    simp only [List.mem_map] at hpt
+    obtain ⟨a, ha, rfl⟩ := hpt
+    apply linComb_len
+    intro q hq
+    simp only [List.mem_map] at hq
+    obtain ⟨b, hb, rfl⟩ := hq
+    exact hlen3 a ha b hb
+  · simp [Blossom.basisFuns_length]
+
 /-! ### the weighted grid -/
 
 theorem gridWeighted_getD (G : List (List (List K))) (w : List K) (i j : ℕ) (hi : i < G.length)
